@@ -76,7 +76,7 @@ Definition spec_ok (c : case) : bool :=
    (computed by the hand-written path of Model/AggJoin.v) *)
 Definition known_class (c : case) : Z :=
   match c with
-  | Agg t q _ => let k := q_class q t in if k =? 2 then 0 else k
+  | Agg t q _ => q_class q t
   | AggJ _ _ _ _ _ _ => 8
   end.
 
